@@ -14,10 +14,10 @@ import tempfile
 
 ROOT = os.path.dirname(os.path.dirname(os.path.abspath(__file__)))
 RELATED = {
-    "C01": ["C09", "C02"], "C02": ["C01"], "C03": ["C05"], "C04": ["C05"], "C05": ["C03", "C04", "C12"], "C06": [],
-    "C07": [], "C08": [], "C09": ["C01", "C10"], "C10": ["C16"], "C11": ["C20"], "C12": ["C05", "C10", "C14", "C15"],
+    "C01": ["C09", "C02", "C18"], "C02": ["C01", "C06"], "C03": ["C05"], "C04": ["C05", "C01"], "C05": ["C03", "C04", "C12"], "C06": [],
+    "C07": [], "C08": [], "C09": ["C01", "C10"], "C10": ["C16"], "C11": ["C20"], "C12": ["C05", "C10", "C14", "C15", "C11"],
     "C13": ["C15", "C14", "C01"], "C14": ["C12"], "C15": ["C11", "C13"], "C16": ["C10"], "C17": [], "C18": ["C04"],
-    "C19": ["C01"], "C20": ["C01", "C11"],
+    "C19": ["C01", "C04", "C05"], "C20": ["C01", "C11"],
 }
 ALL = [f"C{n:02d}" for n in range(1, 21)]
 
